@@ -111,10 +111,11 @@ VARIABLES coin,      \* the network
           frame,     \* everything a signer must not touch (abstract tokens, see FrameOf)
           unlock,    \* unlock[i]: generation number of input i's unlocking script + witness
           offered,   \* history: offered[i] = keys supplied so far in passes that could sign input i
-          kcReg, kcSec, \* a long-lived keychain: registered key paths, masters whose private node it holds
+          kcReg, kcSec, kcScr, \* a long-lived keychain: registered key paths, masters whose private node
+                        \* it holds, whether the redeem / witness scripts were added to it
           npass
 
-vars == <<coin, shape, signed, valid, frame, unlock, offered, kcReg, kcSec, npass>>
+vars == <<coin, shape, signed, valid, frame, unlock, offered, kcReg, kcSec, kcScr, npass>>
 
 NIn == Len(shape)
 Ins == 1..NIn
@@ -130,7 +131,7 @@ TypeOK ==
     /\ \A i \in Ins : /\ signed[i] \subseteq (Listed(i) \X {SigByte(coin, h) : h \in StdHashTypes})
                       /\ \A p, q \in signed[i] : p[1] = q[1] => p = q
                       /\ valid[i] \in BOOLEAN /\ offered[i] \subseteq Keys
-    /\ kcReg \subseteq Keys /\ kcSec \subseteq Masters /\ npass \in 0..MaxPasses
+    /\ kcReg \subseteq Keys /\ kcSec \subseteq Masters /\ kcScr \in BOOLEAN /\ npass \in 0..MaxPasses
 
 InitWith(c, sh) ==
     /\ coin = c /\ shape = sh
@@ -139,7 +140,7 @@ InitWith(c, sh) ==
     /\ frame = FrameOf(sh)
     /\ unlock = [i \in 1..Len(sh) |-> 0]
     /\ offered = [i \in 1..Len(sh) |-> {}]
-    /\ kcReg = {} /\ kcSec = {} /\ npass = 0
+    /\ kcReg = {} /\ kcSec = {} /\ kcScr = FALSE /\ npass = 0
 Init == \E c \in Coins : \E sh \in {x \in Shapes : ShapeOK(c, x)} : InitWith(c, sh)
 
 ----------------------------------------------------------------------------
@@ -151,13 +152,17 @@ Init == \E c \in Coins : \E sh \in {x \in Shapes : ShapeOK(c, x)} : InitWith(c, 
 (*        reg are registered under their masters and which holds the private  *)
 (*        node of the masters sec; a key is available iff its path is         *)
 (*        registered AND its master's private node is held.  fresh = FALSE    *)
-(*        keeps using the keychain of the earlier passes (tables accumulate). *)
+(*        keeps using the keychain of the earlier passes (tables accumulate,  *)
+(*        including the scripts added to it).                                 *)
 (*  I: the inputs the signer is asked to sign; ht: requested hash type;       *)
 (*  scr: whether the redeem / witness scripts were supplied along.            *)
 Mechs == {"lookup", "wifs", "keychain"}
 
 KcRegAfter(p) == IF p.mech # "keychain" THEN kcReg ELSE IF p.fresh THEN p.reg ELSE kcReg \cup p.reg
 KcSecAfter(p) == IF p.mech # "keychain" THEN kcSec ELSE IF p.fresh THEN p.sec ELSE kcSec \cup p.sec
+\* a keychain is also the table of scripts: scripts added in an earlier pass are still there
+KcScrAfter(p) == IF p.mech # "keychain" THEN kcScr ELSE IF p.fresh THEN p.scr ELSE kcScr \/ p.scr
+ScriptsAvailable(p) == IF p.mech = "keychain" THEN KcScrAfter(p) ELSE p.scr
 Supplied(p) == IF p.mech = "keychain"
                THEN {k \in KcRegAfter(p) : MasterOf(k) \in KcSecAfter(p)}
                ELSE p.K
@@ -170,7 +175,7 @@ PassOK(p) == /\ p.mech \in Mechs /\ p.K \subseteq Keys /\ p.I \subseteq Ins /\ p
 \* inputs this pass is entitled to rewrite: asked for, and not already valid
 Touchable(p) == {i \in p.I : ~valid[i]}
 \* inputs for which it can produce signatures at all
-Signable(p) == {i \in Touchable(p) : NeedsScripts(shape[i].kind) => p.scr}
+Signable(p) == {i \in Touchable(p) : NeedsScripts(shape[i].kind) => ScriptsAvailable(p)}
 
 Usable(p, i) == Supplied(p) \cap Listed(i)
 Pool(p, i) == Present(i) \cup Usable(p, i)
@@ -201,7 +206,7 @@ SignPassWith(p, ch) ==
     /\ valid' = [i \in Ins |-> Cardinality(ch[i]) >= Need(i)]
     /\ offered' = [i \in Ins |-> IF i \in Signable(p) THEN offered[i] \cup Supplied(p) ELSE offered[i]]
     /\ unlock' = [i \in Ins |-> IF i \in Touchable(p) THEN unlock[i] + 1 ELSE unlock[i]]
-    /\ kcReg' = KcRegAfter(p) /\ kcSec' = KcSecAfter(p)
+    /\ kcReg' = KcRegAfter(p) /\ kcSec' = KcSecAfter(p) /\ kcScr' = KcScrAfter(p)
     /\ npass' = npass + 1
     /\ UNCHANGED <<coin, shape, frame>>
 SignPass(p) == \E ch \in PassChoices(p, NIn) : SignPassWith(p, ch)
